@@ -64,9 +64,12 @@ def topologies():
         {"kind": "sink", "name": "s0", "junction": "c", "mdot_kg_per_s": 0.2, "scaling": 1.0, "in_service": True},
         {"kind": "sink", "name": "s1", "junction": "d", "mdot_kg_per_s": 0.1, "scaling": 1.0, "in_service": True},
         {"kind": "sink", "name": "s2", "junction": "e", "mdot_kg_per_s": 0.2, "scaling": 1.0, "in_service": True},
-        {"kind": "sink", "name": "s3", "junction": "f", "mdot_kg_per_s": 0.4, "scaling": 1.0, "in_service": True}]},
+        {"kind": "sink", "name": "s3", "junction": "f", "mdot_kg_per_s": 0.4, "scaling": 1.0, "in_service": True},
+        # a second feeder behind the pressure controller: with the upstream part out of service the controller's
+        # from-junction is unsupplied while its to-junction is fed from the other side
+        {"kind": "ext_grid", "name": "eg1", "junction": "f", "p_bar": 3.5, "t_k": 300.0, "in_service": False}]},
         [("p0", "in_service"), ("p1", "in_service"), ("fc0", "control_active"), ("fc0", "in_service"), ("p2", "in_service"),
-         ("pc0", "in_service"), ("pu0", "in_service"), ("s1", "in_service"), ("s3", "in_service")])
+         ("pc0", "in_service"), ("pu0", "in_service"), ("s1", "in_service"), ("s3", "in_service"), ("eg1", "in_service")])
     # T3 two-feeder mesh with pi valve (probe e23 like), gas
     T["mesh"] = ({"fluid": "lgas", "junctions": [J("j%d" % i, t=290.0) for i in range(7)], "elements": [
         {"kind": "ext_grid", "name": "eg0", "junction": "j0", "p_bar": 1.0, "t_k": 290.0, "in_service": True},
